@@ -81,7 +81,7 @@ package discovery
 //@ func (c *HTTPModelDiscoveryClient) discoverWithAutoDetection
 //@   property C20
 //@   safety
-//@   requires c != nil && c.httpClient != nil && c.profileFactory != nil && endpoint != nil
+//@   requires c != nil && c.httpClient != nil && c.profileFactory != nil && endpoint != nil && c.logger != nil
 //@   modifies ghost remaining, ghost backing
 //@   loop 1 invariant true
 //@   ensures res1 == nil ==> namedModels(res0)
@@ -90,7 +90,7 @@ package discovery
 //@ func (c *HTTPModelDiscoveryClient) DiscoverModels
 //@   property C20
 //@   safety
-//@   requires c != nil && c.httpClient != nil && c.profileFactory != nil && endpoint != nil
+//@   requires c != nil && c.httpClient != nil && c.profileFactory != nil && endpoint != nil && c.logger != nil
 //@   modifies ghost remaining, ghost backing
 //@   ensures res1 == nil ==> namedModels(res0)
 //@   ensures res1 != nil ==> len(res0) == 0
@@ -104,6 +104,7 @@ package discovery
 //@ type ModelDiscoveryService
 //@   guarded_by mu: disabledEndpoints, endpointFilters
 //@   repinv self.disabledEndpoints != nil
+//@   repinv self.logger != nil
 
 //@ func GetUserFriendlyMessage
 //@   property C20
